@@ -5,8 +5,8 @@ package main
 // attribute it sits in).  Used by the oracles of C02, C08, C09, C10, C13, C18, C19.
 
 import (
-	"github.com/hashicorp/hcl/v2"
 	"fmt"
+	"github.com/hashicorp/hcl/v2"
 	"math/rand"
 	"strings"
 
@@ -35,10 +35,10 @@ func tfSchema() *schema.BodySchema {
 					"first":  {IsOptional: true, Constraint: schema.AnyExpression{OfType: cty.String}},
 					"second": {IsOptional: true, Constraint: schema.Reference{OfScopeId: "local"}},
 				}}},
-				"tags": {IsOptional: true, Constraint: schema.Map{Elem: schema.AnyExpression{OfType: cty.String}}},
-				"kw":   {IsOptional: true, Constraint: schema.Keyword{Keyword: "enabled"}},
+				"tags":  {IsOptional: true, Constraint: schema.Map{Elem: schema.AnyExpression{OfType: cty.String}}},
+				"kw":    {IsOptional: true, Constraint: schema.Keyword{Keyword: "enabled"}},
 				"oneof": {IsOptional: true, Constraint: schema.OneOf{schema.Reference{OfScopeId: "variable"}, schema.LiteralType{Type: cty.String}}},
-				"strs": {IsOptional: true, Constraint: schema.LiteralType{Type: cty.List(cty.String)}},
+				"strs":  {IsOptional: true, Constraint: schema.LiteralType{Type: cty.List(cty.String)}},
 				"multi": {IsOptional: true, Constraint: schema.OneOf{schema.List{Elem: schema.Reference{OfScopeId: "variable"}}, schema.AnyExpression{OfType: cty.String}}},
 			},
 			Blocks: map[string]*schema.BlockSchema{
@@ -93,8 +93,42 @@ func tfSchema() *schema.BodySchema {
 			},
 		},
 	}
+	// a block type resolved in two steps: the label selects a body that declares a further key attribute,
+	// label + that attribute's value select one more body
+	dataKey1 := schema.DependencyKeys{Labels: []schema.LabelDependent{{Index: 0, Value: "remote_state"}}}
+	dataKey2 := schema.DependencyKeys{Labels: []schema.LabelDependent{{Index: 0, Value: "remote_state"}},
+		Attributes: []schema.AttributeDependent{{Name: "backend", Expr: schema.ExpressionValue{Static: cty.StringVal("s3")}}}}
+	data := &schema.BlockSchema{
+		Labels: []*schema.LabelSchema{{Name: "type", IsDepKey: true}, {Name: "name"}},
+		Body: &schema.BodySchema{Attributes: map[string]*schema.AttributeSchema{
+			"provider": {IsOptional: true, Constraint: schema.LiteralType{Type: cty.String}},
+		}},
+		DependentBody: map[schema.SchemaKey]*schema.BodySchema{
+			schema.NewSchemaKey(dataKey1): {
+				Attributes: map[string]*schema.AttributeSchema{
+					"backend":   {IsOptional: true, IsDepKey: true, Constraint: schema.LiteralType{Type: cty.String}},
+					"workspace": {IsOptional: true, Constraint: schema.AnyExpression{OfType: cty.String}},
+				},
+				Blocks: map[string]*schema.BlockSchema{"defaults": {Body: &schema.BodySchema{Attributes: map[string]*schema.AttributeSchema{
+					"region": {IsOptional: true, Constraint: schema.LiteralType{Type: cty.String}},
+				}}}},
+			},
+			// (as in terraform-schema, the second-step body repeats what the first-step body declares)
+			schema.NewSchemaKey(dataKey2): {
+				Attributes: map[string]*schema.AttributeSchema{
+					"backend":   {IsOptional: true, IsDepKey: true, Constraint: schema.LiteralType{Type: cty.String}},
+					"workspace": {IsOptional: true, Constraint: schema.AnyExpression{OfType: cty.String}},
+					"bucket":    {IsOptional: true, Constraint: schema.LiteralType{Type: cty.String}},
+				},
+				Blocks: map[string]*schema.BlockSchema{"defaults": {Body: &schema.BodySchema{Attributes: map[string]*schema.AttributeSchema{
+					"region": {IsOptional: true, Constraint: schema.LiteralType{Type: cty.String}},
+				}}}},
+			},
+		},
+	}
 	return &schema.BodySchema{
 		Blocks: map[string]*schema.BlockSchema{
+			"data": data,
 			"variable": {
 				Labels:  []*schema.LabelSchema{{Name: "name"}},
 				Address: &schema.BlockAddrSchema{Steps: schema.Address{schema.StaticStep{Name: "var"}, schema.LabelStep{Index: 0}}, ScopeId: "variable", FriendlyName: "variable", AsReference: true, AsTypeOf: &schema.BlockAsTypeOf{AttributeExpr: "type"}},
@@ -163,6 +197,7 @@ func tfSchema() *schema.BodySchema {
 				},
 			},
 		},
+		// (the "data" block type is added below)
 		ImpliedOrigins: schema.ImpliedOrigins{{
 			OriginAddress: lang.Address{lang.RootStep{Name: "var"}, lang.AttrStep{Name: "alpha"}},
 			TargetAddress: lang.Address{lang.RootStep{Name: "var"}, lang.AttrStep{Name: "alpha"}},
@@ -459,6 +494,21 @@ func genTf(r *rand.Rand) *TfConfig {
 			dep = "  dep = " + g.refText("dep", "variable", true) + "\n"
 		}
 		fmt.Fprintf(&g.sb, "output \"o%d\" {\n  value = %s\n%s}\n", i, g.anyExprWithRefs("value", 2), dep)
+	}
+	if r.Intn(3) == 0 {
+		backend := pick(r, []string{"s3", "gcs", ""})
+		fmt.Fprintf(&g.sb, "data \"remote_state\" \"d%d\" {\n  provider = \"p\"\n", r.Intn(3))
+		if backend != "" {
+			fmt.Fprintf(&g.sb, "  backend = %q\n", backend)
+		}
+		fmt.Fprintf(&g.sb, "  workspace = %s\n", g.anyExprWithRefs("workspace", 1))
+		if backend == "s3" {
+			g.sb.WriteString("  bucket = \"b\"\n")
+		}
+		if r.Intn(2) == 0 {
+			g.sb.WriteString("  defaults {\n    region = \"r\"\n  }\n")
+		}
+		g.sb.WriteString("}\n")
 	}
 	if r.Intn(3) == 0 {
 		kind := pick(r, []string{"role", "role", "plain"})
